@@ -11,8 +11,11 @@ import (
 	"regexp"
 	"strings"
 	"sync"
+	"sync/atomic"
 	"time"
 )
+
+var failures atomic.Int64
 
 var symRe = regexp.MustCompile(`[A-Za-z_$][A-Za-z0-9_$!]*`)
 
@@ -202,7 +205,14 @@ func Discharge(em *Emitter, obls []*Obligation, dir string, timeout int, workers
 			if o.Kind == "cover" {
 				r = runSolver(context.Background(), solvers[0], file, min(3, timeout))
 			} else {
-				r = Solve(file, timeout, true)
+				to := timeout
+				if failures.Load() >= 8 && to > 3 {
+					to = 3 // many obligations already failed: the verdict is settled, do not spend minutes on the rest
+				}
+				r = Solve(file, to, true)
+				if r.answer != "unsat" {
+					failures.Add(1)
+				}
 			}
 			o.Solver, o.Time = r.solver, r.dur
 			switch {
